@@ -220,7 +220,7 @@ func recovery(idx int64, r *rand.Rand) {
 }
 
 func TestCheck(t *testing.T) {
-	rt.Cases(1500, 3000000, func(idx int64) {
+	rt.Cases(15000, 3000000, func(idx int64) {
 		r := rt.CaseRand(7, idx)
 		rt.Case()
 		if idx%2 == 0 {
